@@ -148,6 +148,7 @@ type State struct {
 	qfacts []qfact
 	qdone  map[string]bool
 	colW   []wrec // writes performed on this path while collecting a loop's write set
+	globalHavocs []modLoc // heap-wide havocs already performed (replayed on heap components created later)
 }
 
 func (s *State) clone() *State {
@@ -162,6 +163,7 @@ func (s *State) clone() *State {
 	c.havocEpoch = s.havocEpoch
 	c.qfacts = append([]qfact(nil), s.qfacts...)
 	c.colW = append([]wrec(nil), s.colW...)
+	c.globalHavocs = append([]modLoc(nil), s.globalHavocs...)
 	c.qdone = make(map[string]bool, len(s.qdone))
 	for k, v := range s.qdone {
 		c.qdone[k] = v
@@ -185,6 +187,7 @@ func (s *State) snapshot() *State {
 	if len(s.frames) > 0 {
 		c.frames = []*Frame{s.frames[len(s.frames)-1]}
 	}
+	c.globalHavocs = append([]modLoc(nil), s.globalHavocs...)
 	return c
 }
 
